@@ -40,6 +40,12 @@ def file_worker(kp, job):
             for c in row:
                 if c.kind == 'free' and rng.random() < 0.5:
                     c.text = rng.choice(['ça', 'niño', 'Über', '日本', 'ł', 'naïve'])
+    if idx % 4 == 1:
+        # cells the line reader must take literally (quotes, commas, spaces)
+        for row in g.rows():
+            for c in row:
+                if c.kind == 'free' and rng.random() < 0.6:
+                    c.text = rng.choice(['"q"', '"x', 'a,b', 'x y', 'a"b"c', '""', '" "', "it's", 'nein"', '"Ach,'])
     exotic = idx % 11 == 10
     if exotic:
         for row in g.rows():
